@@ -425,8 +425,10 @@ def select(table: Table, *cols: Col | ColName | str) -> Pipeable:
 
     errors.check_vararg_type(Col | ColName | str, "select", *cols)
 
+    cols = [ColName(col) if isinstance(col, str) else col for col in cols]
+
     for col in cols:
-        if isinstance(col, ColName | str) and col not in table:
+        if isinstance(col, ColName) and col not in table:
             raise ColumnNotFoundError(f"column `{col.ast_repr()}` does not exist in table `{table._ast.short_name()}`")
         elif col not in table and col._uuid in table._cache.cols:
             raise ColumnNotFoundError(
@@ -435,10 +437,11 @@ def select(table: Table, *cols: Col | ColName | str) -> Pipeable:
                 "overwrite it in `mutate` or `summarize`."
             )
 
-    cols = [ColName(col) if isinstance(col, str) else col for col in cols]
+    # a column named twice is selected once (at its first position)
+    selected = {col._uuid: col for col in reversed([preprocess_arg(col, table) for col in cols])}
 
     new = copy.copy(table)
-    new._ast = Select(table._ast, [preprocess_arg(col, table) for col in cols])
+    new._ast = Select(table._ast, list(reversed(selected.values())))
 
     return new
 
